@@ -31,10 +31,15 @@ func ZZ_C13_createOrReuse() {
 		tpl = "C"
 	}
 	ds := zzEDS("ns", "foo", tpl, canary)
+	// one peculiarity of the object at a time (kept exclusive to bound the number of paths):
+	quirk := nondet.String("eds.quirk", "none", "stale-hash-annotation", "selector-edited", "reserved-label-own-name", "reserved-label-other-name")
 	// the object itself may carry a (stale) template-hash annotation, e.g. a manifest derived from an export
-	if nondet.Bool("eds.staleHashAnnotation") {
+	if quirk == "stale-hash-annotation" {
 		ds.Annotations[datadoghqv1alpha1.MD5ExtendedDaemonSetAnnotationKey] = "hash-of-a-previous-template"
 	}
+	// the object's own labels are copied onto its replica sets; one of them may be the reserved
+	// name label (a manifest assembled from another ExtendedDaemonSet's): the replica set is still
+	// filed under the name of its owner
 	c := fakeapi.New()
 	var present []string
 	for _, id := range []string{"A", "B", "C"} {
@@ -52,11 +57,17 @@ func ZZ_C13_createOrReuse() {
 		c.ERS = append(c.ERS, rs)
 		present = append(present, id)
 	}
+	switch quirk {
+	case "reserved-label-own-name":
+		ds.Labels = map[string]string{datadoghqv1alpha1.ExtendedDaemonSetNameLabelKey: "foo", "team": "x"}
+	case "reserved-label-other-name":
+		ds.Labels = map[string]string{datadoghqv1alpha1.ExtendedDaemonSetNameLabelKey: "bar", "team": "x"}
+	}
 	ds.Status.ActiveReplicaSet = nondet.String("status.active", "", "foo-A", "foo-B", "foo-C", "foo-gone")
 	// everything of the ExtendedDaemonSet other than its pod template may have changed since the
 	// replica sets were created (they keep a snapshot of spec.selector): a template still has its
 	// replica set
-	if nondet.Bool("eds.selectorEditedSince") {
+	if quirk == "selector-edited" {
 		ds.Spec.Selector = &metav1.LabelSelector{MatchLabels: map[string]string{"pool": "edited"}}
 	}
 	c.EDS = append(c.EDS, ds)
